@@ -2,6 +2,7 @@ package syntax
 
 import (
 	"context"
+	"fmt"
 	"io"
 	"os"
 	"path"
@@ -81,7 +82,7 @@ func ParseFileRecursively(file string) (<-chan directives.File, func(context.Con
 	return cpr.Produce(func(ctx context.Context, ch chan<- directives.File) error {
 		wg, ctx := errgroup.WithContext(ctx)
 		wg.Go(func() error {
-			res, err := parseRec(ctx, wg, ch, file)
+			res, err := parseRec(ctx, wg, ch, file, nil)
 			if err != nil {
 				return err
 			}
@@ -96,7 +97,9 @@ type Result struct {
 	Err  error
 }
 
-func parseRec(ctx context.Context, wg *errgroup.Group, resCh chan<- directives.File, file string) (directives.File, error) {
+// parseRec parses the file and, concurrently, the files it includes.
+// ancestors is the chain of files whose include directives led to this file.
+func parseRec(ctx context.Context, wg *errgroup.Group, resCh chan<- directives.File, file string, ancestors []string) (directives.File, error) {
 	text, err := os.ReadFile(file)
 	if err != nil {
 		return directives.File{}, err
@@ -107,9 +110,18 @@ func parseRec(ctx context.Context, wg *errgroup.Group, resCh chan<- directives.F
 	}
 	p.Callback = func(d directives.Directive) {
 		if inc, ok := d.Directive.(directives.Include); ok {
-			file := path.Join(filepath.Dir(file), inc.IncludePath.Content.Extract())
+			included := path.Join(filepath.Dir(file), inc.IncludePath.Content.Extract())
+			chain := append(ancestors[:len(ancestors):len(ancestors)], file)
 			wg.Go(func() error {
-				res, err := parseRec(ctx, wg, resCh, file)
+				for _, ancestor := range chain {
+					if ancestor == included {
+						return directives.Error{
+							Message: fmt.Sprintf("include cycle: %s includes itself", included),
+							Range:   inc.Range,
+						}
+					}
+				}
+				res, err := parseRec(ctx, wg, resCh, included, chain)
 				if err != nil {
 					return err
 				}
